@@ -321,6 +321,25 @@ def run_case(case, ctx):
             if bad is not None:
                 raise Violation("outline differs from resolved+rounded source", glyph=name, contour=bad, reversed=exp[bad][1], got=got[bad] if ordered else got, expected=exp[bad][0], tol=tol)
             ctx.count("contours-compared-exact", len(got))
+            if not rounding and tol is not None:
+                # tolerance mode, structure-independent clause: every stored coordinate is a source coordinate, kept as it is (up to the 16.16 encoding) or moved
+                # onto an integer at most `tol` away. Only for outlines without quadratic segments (their cubic control points are derived, not source points).
+                res = list(R.resolve_ex(gi, name))
+                if not any(p[2] == "qcurve" or (p[2] is None and any(q[2] == "qcurve" for q in pts_)) for pts_, _, _ in res for p in pts_):
+                    import bisect
+
+                    for axis in (0, 1):
+                        src_vals = sorted({float(p[axis]) for pts_, _, _ in res for p in pts_})
+                        for gc in got:
+                            for v in [gc[0][axis]] + [q[axis] for _, qs in gc[1] for q in qs]:
+                                k = bisect.bisect_left(src_vals, v)
+                                near = min((abs(v - src_vals[j]) for j in (k - 1, k) if 0 <= j < len(src_vals)), default=None)
+                                if near is None:
+                                    continue
+                                if near > tol + 2e-3 or (near > 2e-3 and abs(v - round(v)) > 2e-3):
+                                    raise Violation("a stored coordinate is neither a source coordinate nor an integer within the rounding tolerance of one", glyph=name, axis="xy"[axis],
+                                                    stored=v, distance_to_nearest_source_coordinate=near, tol=tol, unitsPerEm=spec["info"].get("unitsPerEm"))
+                    ctx.count("tolerance-mode-glyphs-checked-coordinate-wise")
         else:
             if not rounding:
                 ctx.label("tolerance-with-optimizer(advance only)")
